@@ -227,7 +227,7 @@ def main(tier: str, seed: int) -> int:
              for i in range(P)]
     cases += [{"kind": "rand", "rng_seed": f"c10-{seed}-{i}", "count": n_rand // P,
                "workdir": wd} for i in range(P)]
-    results, notes = core.run_workers("checks.c10", "run_chunk", cases, chunks_per_proc=2)
+    results, notes = core.run_workers("checks.c10", "run_chunk", cases, chunks_per_proc=2, case_wall=5000, timeout=6000)
     for n in notes:
         chk.note_inconclusive(n)
     distinct = 0
